@@ -1616,18 +1616,22 @@ Section Refine.
     unfold C_s. rewrite to_opt_dbind.
     destruct (to_opt (RAS (Some (Variable_ m k [])) b)) as [[nb nd]|] eqn:Erb; cbn [obind fst snd].
     2:{ split; [destruct (negb (contains_tuple c)); reflexivity | intros; discriminate]. }
-    destruct nd as [|d0 nd]; cbn [is_nil negb to_opt obind fst snd].
-    - rewrite rtsO_while. destruct (contains_tuple c); cbn [negb option_map].
-      + split; [destruct (rtsO nb); reflexivity | intros; discriminate].
-      + destruct (rtsO nb) as [b2|]; cbn [option_map]; split; try reflexivity; intros s2 d H; inversion H; subst; constructor.
+    change (existsb (counted_by k)) with (existsb (decl_uses_counter k)).
+    destruct (existsb (decl_uses_counter k) nd) eqn:Euse; cbn [to_opt obind fst snd].
     - rewrite rtsO_while, rtsO_block, !mapO_cons, mapO_nil, (rtsO_incr m k Hk).
       destruct (contains_tuple c); cbn [negb option_map obind].
       + split; [destruct (rtsO nb); reflexivity | intros; discriminate].
       + destruct (rtsO nb) as [b2|] eqn:E2; cbn [obind option_map]; [|split; [reflexivity | intros; discriminate]].
+        rewrite Euse.
         split; [reflexivity|]. intros s2 d H. inversion H; subst.
         constructor; [split; [reflexivity | right; reflexivity]|].
         constructor; [split; [apply rtsO_init0; exact Hk | exact I]|].
         eapply Fb'; eauto.
+    - rewrite rtsO_while. destruct (contains_tuple c); cbn [negb option_map].
+      + split; [destruct (rtsO nb); reflexivity | intros; discriminate].
+      + destruct (rtsO nb) as [b2|] eqn:E2; cbn [option_map obind]; [|split; [reflexivity | intros; discriminate]].
+        rewrite Euse.
+        split; [reflexivity|]. intros s2 d H. inversion H; subst. eapply Fb'; eauto.
   Qed.
 
   (* ---- log calls ---- *)
